@@ -70,4 +70,55 @@ def writtenEntries (s : State) : List (Option Rat) :=
   let full := updateFrom s.inDegrees 0 s.nodes (heldNumbers s)
   if leftOffStays s then full.take s.nodes.length else full
 
+/-! ## histories: what a user does to a transform between writes
+
+`Transform.rotation_matrix` / `displacement_vector` hand out the array the transform holds (no copy), so besides the
+setters an entry can be assigned in place (`t.rotation_matrix[k] = v`).  `_update_values` keeps no memory of an
+earlier write other than the nodes of the card: what it writes is a function of the state it finds. -/
+
+/-- one step of a history -/
+inductive Edit where
+  /-- `t.is_in_degrees = b` -/
+  | setDegrees (b : Bool)
+  /-- transform.py:Transform.rotation_matrix (setter) — `ValueError` unless 5..9 entries (state at the raise point) -/
+  | setRotation (m : List Rat)
+  /-- transform.py:Transform.displacement_vector (setter) — `ValueError` unless 3 entries -/
+  | setDisplacement (d : List Rat)
+  /-- `t.rotation_matrix[k] = v` on the array the getter returns (`IndexError` behind the end: nothing changes) -/
+  | rotationAt (k : Nat) (v : Rat)
+  /-- `t.displacement_vector[k] = v` on the array the getter returns -/
+  | displacementAt (k : Nat) (v : Rat)
+  /-- a write (`format_for_mcnp_input` → `_update_values`): of the state only the nodes of the card change; which
+      nodes the write leaves (`ListNode.update_with_new_values` drops jumps at the end, C08) is not fixed here: any list -/
+  | write (nodesAfter : List (Option Rat))
+deriving Repr
+
+/-- the state after one step -/
+def applyEdit (s : State) : Edit → State
+  | .setDegrees b => { s with inDegrees := b }
+  | .setRotation m => if 5 ≤ m.length ∧ m.length ≤ 9 then { s with rot := m } else s
+  | .setDisplacement d => if d.length = 3 then { s with disp := d } else s
+  | .rotationAt k v => { s with rot := s.rot.set k v }
+  | .displacementAt k v => { s with disp := s.disp.set k v }
+  | .write nodesAfter => { s with nodes := nodesAfter }
+
+/-- the state after a history (a fold over its steps) -/
+def run (s : State) (es : List Edit) : State := es.foldl applyEdit s
+
+/-- a step that is not a write -/
+def Edit.isWrite : Edit → Bool
+  | .write _ => true
+  | _ => false
+
+/-- the history without its writes -/
+def dropWrites (es : List Edit) : List Edit := es.filter (fun e => !e.isWrite)
+
+/-- what the transform holds, apart from the nodes of its card -/
+def held (s : State) : Bool × Bool × List Rat × List Rat := (s.inDegrees, s.mainToAux, s.disp, s.rot)
+
+/-- the entries every write of a history produces, in order (the nodes each write finds are those the write before left) -/
+def writesOf (s : State) : List Edit → List (State × List (Option Rat))
+  | [] => []
+  | e :: es => (if e.isWrite then [(s, writtenEntries s)] else []) ++ writesOf (applyEdit s e) es
+
 end MontePyVerif.TransformWrite
